@@ -6,6 +6,30 @@ HOOK_COMMITS = ["5ccaaac", "7f20f04"]
 
 # id -> dict(level, text, note, technique, design)
 BUILT = {
+ "C01": dict(
+  level="model_checking",
+  text="Validator.tla transcribes validateFieldDef and models what the reflection setters and scratch-buffer slices accept (StoreSafe); TLC evaluates Validate = ok => StoreSafe for every profile class present in the compiled tables x all 256 base-type bytes x all 256 sizes (1.7M evaluations) and exports the expected verdict table. The real decoder is then run on every single-field definition stream (message x field x base-type byte x size x byte order, followed by matching data; one target per class plus random ones in quick, all 779 fields plus unknown fields/messages in thorough): no panic, no hang, and the error/no-error verdict is compared with the model's table (differences are reported as model drift). Arbitrary byte strings (random, and valid files under bit flips, noise, splices, truncation, header / first-record / definition edits) go through all six entry points with seeded chunkings, cuts and faults under recover and a watchdog; a sample of those calls is validated in full by TLC against the three-valued Contract. Termination of the reader under every chunking is a TLC liveness property of FrameImpl (checked in C10/C11).",
+  note="Trusted: TLC; premise asserted from the exported tables: no float-typed profile field (TLC reports that for such a class the validator would be unsound). Reader assumption: Read returns n > 0 or an error.",
+  technique="TLA+ model of the definition validator vs reflection safety (TLC exhaustive) + exhaustive replay of the definition space into the real decoder + byte-string totality runs with TLC trace validation of a sample",
+  design="DESIGN.md section 5, C01"),
+ "C04": dict(
+  level="model_checking",
+  text="TLC proves on Crc16.tla the residue lemma, linearity, that every non-zero error pattern of span <= 16 bits at each of the 8 bit alignments (524 280 windows) has a non-zero CRC and that a non-zero register never returns to zero under further bytes - so any burst <= 16 bits changes the residue and the expected verdict is the constant 'error'. Natively, valid files (device, generated, Encode output) are corrupted at every start bit outside byte 0 and bytes 4..7 with structured, seeded and word-clearing patterns (all odd 16-bit patterns for short files in thorough) and Decode and CheckIntegrity must both reject. TLC validates recorded calls: valid files pass CheckIntegrity and Decode, sampled corruptions are rejected, and a header matrix (sizes 12/14 x protocol bytes x data type x stored CRC {0, correct, corrupted} x corrupted covered bytes) gets the same verdict (FitRef!HeaderAt) from DecodeHeader, CheckIntegrity (both modes), Decode and Header.CheckIntegrity.",
+  note="Trusted: TLC, Bitwise module. The burst sweep itself is native enumeration with a TLC-proved constant oracle. Header.CheckIntegrity only for sizes 12 and 14.",
+  technique="TLC lemmas on the CRC (burst detection) + native burst sweep against the real code + TLC trace validation of integrity verdicts across the four header-checking APIs",
+  design="DESIGN.md section 5, C04"),
+ "C10": dict(
+  level="model_checking",
+  text="FrameImpl.tla transcribes the decoder's reader (binary.Read of the size byte, io.ReadFull of the header, fill with min(buffer, limit - n), readByte/readFull, checkCRC, the DecodeChained loop) against an environment that answers every Read with any 1..req available bytes, EOF or a fault (optionally together with the last bytes). TLC checks NeverPastFrame, SuccessConsumesExactly, CleanEndIsOk, PartialContent and termination for every cut point, every fault point and every chunking of small chains (the state is position/buffered/fetched, so 2^n chunkings collapse to O(n^2) states). Recorded calls of the real code (valid files followed by trailing bytes x 10 chunk scripts x 5 entry points; chains of 2-3 files) are validated by TLC: every Read request ends inside its frame, success consumes header+data+2, every chained file equals the Contract's decode; chained results are also compared with the same bytes decoded alone, and DecodeHeader / DecodeHeaderAndFileID with the Contract's header and file_id.",
+  note="Trusted: TLC. FrameImpl is bound to the code through the Contract-level read discipline on recorded Read sequences, not by step-by-step conformance of the buffer model.",
+  technique="TLA+ reader model (FrameImpl) exhaustively checked by TLC + TLC trace validation of recorded Read sequences and results",
+  design="DESIGN.md section 5, C10"),
+ "C11": dict(
+  level="model_checking",
+  text="FrameImpl (see C10) is checked by TLC for TruncationIsError, FaultIsError, the chain rule (only a clean EOF exactly on a file boundary after >= 1 file ends a chain silently) and PartialContent at every cut and fault offset under every chunking; the same model with the pre-fix chain rule is shown to violate FaultIsError (non-vacuity). Recorded calls of the real code on valid single and chained streams cut or faulted at every offset (short streams) or at header / record-boundary +-1 / buffer-boundary +-1 / CRC offsets plus a seeded sample, in four reader behaviours (EOF, fault, last bytes together with EOF, last bytes together with the fault), through all entry points, are validated by TLC: error required, returned files hold exactly the records complete before the cut.",
+  note="Trusted: TLC. Fault enumeration is complete for streams up to 200 bytes (quick) / 4 KiB (thorough).",
+  technique="TLA+ reader model with EOF/fault at every Read (TLC exhaustive) + fault enumeration on the real code with TLC trace validation",
+  design="DESIGN.md section 5, C11"),
  "C02": dict(
   level="model_checking",
   text="The TLA+ reference decoder FitRef (value semantics FitValues: byte order, sign/zero extension, strings, arrays, times, coordinates, invalid values; three-valued verdicts) is run by TLC over the input of every recorded Decode call (trace validation, one state per protocol unit) and every produced message is compared field by field with what the real decoder returned. Drivers: all device files under testdata, a systematic stream per hosted message covering every field x every compatible definition type (narrower types too) x both byte orders x boundary values with unknown/developer neighbours, large definitions (up to 255 fields / 255 developer fields), and seeded profile-driven random streams.",
